@@ -53,6 +53,9 @@ class OutPoison:
     def __hash__(self) -> int:
         return hash(OutPoison)
 
+class CallState:
+    """The mutable state of a single Multiprocessor.filter call."""
+
 class MyProcessLine(ProcessLine):
 
     ### We create a lock so that we can safely receive any possible exceptions. Empirical
@@ -210,21 +213,24 @@ class Multiprocessor(Filter[Iterable[Any], Iterable[Any]]):
             get_max   = Slice(None,self._maxtasksperchild)
             setter    = EventSetter(event)
 
-            self._n_procs      = self._max_processes
-            self._exceptions   = []
-            self._poison       = None
-            self._main_err     = False
-            self._load_stopper = Stopper() #this works because the loader is a thread which means we have shared memory
+            #the state of this call lives on its own object (not on self) so that the callback threads of an earlier,
+            #abandoned, call that are still around can't change the counters of a later call on the same Multiprocessor
+            call = CallState()
+            call._n_procs      = self._max_processes
+            call._exceptions   = []
+            call._poison       = None
+            call._main_err     = False
+            call._load_stopper = Stopper() #this works because the loader is a thread which means we have shared memory
 
-            load_line   = SourceSink(IterableSource(items), self._load_stopper, pickler, in_put)
+            load_line   = SourceSink(IterableSource(items), call._load_stopper, pickler, in_put)
             filter_line = SourceSink(in_get, setter, unpickler, get_max, Safe(Foreach(self._filter)), out_put)
 
             def loader_finished_or_failed(worker: Union[ThreadLine,ProcessLine]):
-                if worker.exception: self._exceptions.append(worker.exception)
-                in_put.write(self._load_stopper.filter([self._poison]*self._n_procs))
+                if worker.exception: call._exceptions.append(worker.exception)
+                in_put.write(call._load_stopper.filter([call._poison]*call._n_procs))
 
             def filter_finished_or_failed(worker: Union[ThreadLine,ProcessLine]):
-                if worker.exception: self._exceptions.append(worker.exception)
+                if worker.exception: call._exceptions.append(worker.exception)
 
                 assert not worker.is_alive()
 
@@ -233,24 +239,24 @@ class Multiprocessor(Filter[Iterable[Any], Iterable[Any]]):
                     #exitcode -15 is keyboard interrupt...
                     if worker.exitcode != -15:
                         print(f"Background process {worker.pid} failed unexpectedly with exit code {worker.exitcode}.")
-                    self._main_err = True
+                    call._main_err = True
                     event.set()
 
                 #we have to stop on exception since, depending on where the exception occurred,
                 #we may not have actually read anything from the input queue. If we didn't then
                 #the input queue will never empty and we'll be stuck starting processes forever.
-                if not worker.poisoned and not self._exceptions and worker.exitcode == 0:
+                if not worker.poisoned and not call._exceptions and worker.exitcode == 0:
                     MyProcessLine(worker.pipeline,filter_finished_or_failed,read_waiters).start()
                 else:
-                    self._n_procs -= 1
-                    if self._n_procs == 0:
+                    call._n_procs -= 1
+                    if call._n_procs == 0:
                         try:
                             out_put.write([OutPoison()])
                         except ValueError: #pragma: no cover
                             pass
 
             load_thread = ThreadLine(load_line,loader_finished_or_failed)
-            filt_procs  = [MyProcessLine(filter_line,filter_finished_or_failed,read_waiters) for _ in range(self._n_procs)]
+            filt_procs  = [MyProcessLine(filter_line,filter_finished_or_failed,read_waiters) for _ in range(call._n_procs)]
 
             try:
                 load_thread.start()
@@ -259,7 +265,7 @@ class Multiprocessor(Filter[Iterable[Any], Iterable[Any]]):
                 #by waiting we can avoid throwing multiple exceptions
                 #when there is a problem with starting a new process
                 event.wait()
-                if not self._main_err:
+                if not call._main_err:
                     for p in filt_procs: p.start()
                     for i in out_get.read():
                         if read_waiters and isinstance(i, UniqueKey):
@@ -270,7 +276,7 @@ class Multiprocessor(Filter[Iterable[Any], Iterable[Any]]):
             finally:
 
                 #stop loading into the input queue
-                self._load_stopper.stop()
+                call._load_stopper.stop()
 
                 #empty the input queue and then close it
                 #if we don't empty first then we can easily
@@ -294,5 +300,5 @@ class Multiprocessor(Filter[Iterable[Any], Iterable[Any]]):
                     #and doesn't seem to help anything
                     #out_queue.close()
 
-            if self._exceptions:
-                raise self._exceptions[0]
+            if call._exceptions:
+                raise call._exceptions[0]
